@@ -62,11 +62,11 @@ def present(cur, model, counter, delta, junk):
     in the following one (strobe-first implementations).  Exactly one strobe.  Returns (failures, observation)."""
     dw0 = ITP_TYPE | (counter << 5) | (delta << 19)
     kw = dict(valid=1, dw0=dw0, **junk_inputs(model, junk))
-    for _ in range(4):                      # producer holds the header until it is taken
+    for _ in range(WAIT):                      # producer holds the header until it is taken
         o = cur.step(**kw)
         if o.ready: break
     else:
-        return [("itp:not-accepted", dict(dw0=hex(dw0), note="ready never rose within 4 cycles of valid"))], None
+        return [("itp:not-accepted", dict(dw0=hex(dw0), note="ready never rose within 16 cycles of valid"))], None
     trace = [o]
     first = 0 if o.update_received else None
     while (first is None and len(trace) <= WAIT) or (first is not None and len(trace) <= first + TAIL):
@@ -98,11 +98,11 @@ def stream_check(cur, model, pkts):
     obs = []
     for i, (c, d) in enumerate(pkts):
         kw = dict(valid=1, dw0=ITP_TYPE | (c << 5) | (d << 19), **junk_inputs(model, i % 3))
-        for _ in range(4):
+        for _ in range(WAIT):
             o = cur.step(**kw); obs.append(o)
             if o.ready: break
         else:
-            return ("itp:not-accepted", dict(packet_index=i, note="ready never rose within 4 cycles of valid"))
+            return ("itp:not-accepted", dict(packet_index=i, note="ready never rose within 16 cycles of valid"))
     for _ in range(WAIT + 2): obs.append(cur.step())
     strobes = [i for i, t in enumerate(obs) if t.update_received and (i == 0 or not obs[i - 1].update_received)]
     level = [i for i, t in enumerate(obs) if t.update_received]
@@ -200,10 +200,10 @@ def layer_present(cur, model, counter, delta, junk):
     any time within WAIT cycles after the header was taken and is read then.  Returns (failures, value read)."""
     dw0 = ITP_TYPE | (counter << 5) | (delta << 19)
     kw = dict(valid=1, dw0=dw0, **junk_inputs(model, junk))
-    for _ in range(4):
+    for _ in range(WAIT):
         if cur.step(**kw).ready: break
     else:
-        return [("itp-layer:not-accepted", dict(dw0=hex(dw0), note="header_source.ready never rose within 4 cycles of valid"))], None
+        return [("itp-layer:not-accepted", dict(dw0=hex(dw0), note="header_source.ready never rose within 16 cycles of valid"))], None
     left = WAIT
     while left > 0:                                      # (hold stops at each change; run out the bound)
         n, _first, _last = cur.hold(left)
@@ -231,7 +231,7 @@ def layer_prefix(cur, model, pre):
     cur.step()
     if pre == "after-all-ones":
         kw = dict(valid=1, dw0=ITP_TYPE | (0x3FFF << 5) | (0x1FFF << 19), **junk_inputs(model, 1))
-        for _ in range(4):
+        for _ in range(WAIT):
             if cur.step(**kw).ready: break
         for _ in range(WAIT + 2): cur.step()
 
@@ -287,7 +287,7 @@ def prefix(cur, model, pre):
 
 def present_raw(cur, model, counter, delta):
     kw = dict(valid=1, dw0=ITP_TYPE | (counter << 5) | (delta << 19), **junk_inputs(model, 1))
-    for _ in range(4):
+    for _ in range(WAIT):
         if cur.step(**kw).ready: break
 
 
